@@ -476,6 +476,8 @@ func checkC15(ctx *core.Ctx, rep *core.Report) {
 			rep.Hole("fewer than three certificate objects for the file-sequence product")
 		}
 	}
+	// ---- environment answers of the input side: boundary bytes, standard input in pieces (c15io.go) ----
+	c15InputAnswers(ctx, rep, tmp, objs)
 	if ctx.Shard != 0 {
 		return
 	}
